@@ -922,7 +922,7 @@ impl Engine for C15 {
         }
         // ---- the entry-level seam
         let mut z = rng.split("lazy-jar");
-        if z.chance(20) {
+        if z.chance(35) {
             for j in 0..n {
                 let nent = p.jar(j).classes.len() as u64 + 3;
                 // detection walks the main jar once, the mappings step walks every jar once more
@@ -931,6 +931,12 @@ impl Engine for C15 {
                 if j != 0 && z.chance(60) {
                     l.fail_at.clear();
                     l.read_fault = None;
+                }
+                if j == 0 && z.chance(60) {
+                    // an I/O error in the middle of one class of the main jar during the detection walk (the first
+                    // nent parses): the place where a swallowed error loses a bridge (missed seeded change C15-8)
+                    l.fail_at.clear();
+                    l.read_fault = Some((z.below(nent) as u32, z.below(1000) as u32));
                 }
                 p.lazy.push(l);
             }
